@@ -68,6 +68,7 @@ impl VringState {
 }
 // a ring handle (T::Vring: a clonable handle on shared state); `id` is the ring's identity: clones share it
 pub struct GM { pub g: Ghost<int> }
+// assumed: A-CLONE a clone of a shared handle refers to the same object
 impl GM { #[verifier::external_body] pub fn clone(&self) -> (r: GM) ensures r == *self { unimplemented!() } }
 pub struct VringStub { pub id: Ghost<int>, pub st: VringState }
 impl VringStub {
@@ -89,8 +90,10 @@ pub struct BackendStub { pub nq: usize, pub mqs: usize, pub masks: Vec<u64> }
 impl BackendStub {
     pub fn num_queues(&self) -> (r: usize) ensures r == self.nq { self.nq }
     pub fn max_queue_size(&self) -> (r: usize) ensures r == self.mqs { self.mqs }
+    // assumed: ENV the backend reports its configuration
     #[verifier::external_body]
     pub fn queues_per_thread(&self) -> (r: Vec<u64>) ensures r@ == self.masks@ { unimplemented!() }
+    // assumed: A-CLONE a clone of a shared handle refers to the same object
     #[verifier::external_body]
     pub fn clone(&self) -> (r: BackendStub) ensures r == *self { unimplemented!() }
 }
@@ -105,10 +108,12 @@ impl VringEpollHandler {
         ensures r is Ok ==> r->Ok_0.thread@ == thread_id && r->Ok_0.vrings@ == ids(vrings@)
     { unimplemented!() }
     // argument contracts: a call on any other worker, with any other id / descriptor / direction does not verify
+    // argument-contract stub: REQUIRES pins worker, event id, descriptor and direction (effect on the epoll set: kani c11_*)
     #[verifier::external_body]
     pub fn register_event(&self, fd: RawFd, ev: EventSet, data: u64) -> (r: core::result::Result<(), IoError>)
         requires self.thread@ == self.exp@.owner, data == self.exp@.evt, fd == self.exp@.fd, self.exp@.register
     { unimplemented!() }
+    // argument-contract stub (as register_event)
     #[verifier::external_body]
     pub fn unregister_event(&self, fd: RawFd, ev: EventSet, data: u64) -> (r: core::result::Result<(), IoError>)
         requires self.thread@ == self.exp@.owner, data == self.exp@.evt, fd == self.exp@.fd, !self.exp@.register
